@@ -1040,7 +1040,8 @@ package opset13
 
 //@ func (*Gemm).Apply
 //@   tags C04,C02
-//@   requires self != nil && len(inputs) == 3 && inputs[0] != nil && inputs[1] != nil
+//@   requires self != nil
+//@   scope inputs_validated: len(inputs) == 3 && inputs[0] != nil && inputs[1] != nil
 //@   scope extents_positive: dims_positive(inputs[0]) && dims_positive(inputs[1]) && (inputs[2] != nil ==> dims_positive(inputs[2]))
 //@   scope one_element_type: dtype(inputs[0]) == dtype(inputs[1]) && (inputs[2] != nil ==> dtype(inputs[2]) == dtype(inputs[0]))
 //@   modifies opstate(self)
